@@ -146,6 +146,23 @@ type Tagged struct {
 	Q int            `xml:"q"`
 }
 
+type Omit struct {
+	A string         `json:"a,omitempty"`
+	B int            `json:"b,omitempty"`
+	C bool           `json:",omitempty"`
+	D *int           `json:"d,omitempty"`
+	E map[string]int `json:"e,omitempty"`
+	F []string       `json:"f,omitempty"`
+	G float64        `json:"g,omitempty"`
+	H any            `json:"h,omitempty"`
+	I uint8          `json:"i,omitempty"`
+	J [2]int         `json:"j,omitempty"`
+	K string         `json:"k"`
+	L string
+	m string //lint:ignore U1000 unexported on purpose
+	N int    `json:"-"`
+}
+
 type Inner struct{ X, Y int }
 type Emb struct {
 	Inner
@@ -280,6 +297,9 @@ func init() {
 	addT[map[NamedString]map[int8]bool]("map[NamedString]map[int8]bool")
 	addT[struct{}]("struct{}")
 	addT[struct{ A, B int }]("struct{A,B int}")
+	addT[Omit]("Omit")
+	addT[[]Omit]("[]Omit")
+	addT[map[string]*Omit]("map[string]*Omit")
 	addT[Tagged]("Tagged")
 	addT[*Tagged]("*Tagged")
 	addT[Emb]("Emb")
